@@ -1,6 +1,43 @@
-(** C08 -- instance for the rule table generated from /repo (placeholder header; see below). *)
+(** C08 -- instance for the rule table GENERATED from /repo (translate/t_rules.py -> GenRules.v):
+    with [table_ok] every documented additive field is summed under its own key, so the generic
+    window theorems give "the additive fields of an output cell are the sums over the source cells of
+    its slice, window and evaluation date" and conservation for the real registry. *)
 From Coq Require Import ZArith List Bool.
-From Bermuda Require Import Model.Base Model.Summarize Proofs.SummarizeTable.
+From Bermuda Require Import Model.Base Model.Summarize Model.Aggregate Proofs.SummarizeLib Proofs.Summarize
+  Proofs.Summarize2 Proofs.SummarizeTable Proofs.Aggregate.
 From Gen Require Import GenRules.
+Import ListNotations.
+Local Open Scope Z_scope.
+
 Theorem C08_table_ok : table_ok rules non_loss = true.
 Proof. vm_compute; reflexivity. Qed.
+
+Section Inst.
+  Variable wavg : transform -> list value -> list value -> result value.
+
+  Theorem C08_registered_field_is_sum : forall prem g vals k v,
+    In k additive_fields ->
+    summarize_cell_values wavg rules non_loss prem g = Ok vals -> g <> [] -> In (k, v) vals ->
+    (prem = true \/ mem_str k non_loss = false) ->
+    conforming_sum (raw k g) = Ok v.
+  Proof.
+    intros prem g vals k v Hk Ev Hne Hkv Hp.
+    exact (scv_sum_entry wavg rules non_loss prem g vals k v Ev Hne Hkv
+             (table_ok_additive rules non_loss k C08_table_ok Hk) Hp).
+  Qed.
+  Theorem C08_registered_conservation_per_eval : forall prem l out k i e,
+    In k additive_fields ->
+    map_result (window_cell wavg rules non_loss prem) (groupby coord_eqb coord3 l) = Ok out ->
+    (prem = true \/ mem_str k non_loss = false) ->
+    (forall o, In o out -> in_range i (getv k o)) ->
+    total_at e i k out = total_at e i k l.
+  Proof.
+    intros prem l out k i e Hk H Hp Hr.
+    exact (windows_conserve wavg rules non_loss prem l out k i e H
+             (table_ok_additive rules non_loss k C08_table_ok Hk) Hp Hr).
+  Qed.
+End Inst.
+
+Print Assumptions C08_table_ok.
+Print Assumptions C08_registered_field_is_sum.
+Print Assumptions C08_registered_conservation_per_eval.
